@@ -25,21 +25,20 @@ pub fn short_name(id: &str) -> &str {
     }
 }
 
-fn offsets_signature(tz: &Tz, step_h: i64) -> Vec<i32> {
-    // offsets sampled over 1980-2060
-    let start = Utc.with_ymd_and_hms(1980, 1, 1, 0, 0, 0).unwrap();
-    let end = Utc.with_ymd_and_hms(2060, 1, 1, 0, 0, 0).unwrap();
-    let mut v = Vec::new();
-    let mut t = start;
-    while t < end {
-        v.push(tz.offset_from_utc_datetime(&t.naive_utc()).fix().local_minus_utc());
-        t += chrono::Duration::hours(step_h);
+fn offsets_signature(tz: &Tz, _step_h: i64) -> Vec<i64> {
+    // exact offset function over 1980-2060: initial offset, then every (transition second, new offset)
+    let off = |t: i64| tz.offset_from_utc_datetime(&Utc.timestamp_opt(t, 0).unwrap().naive_utc()).fix().local_minus_utc() as i64;
+    let start = Utc.with_ymd_and_hms(1980, 1, 1, 0, 0, 0).unwrap().timestamp();
+    let mut v = vec![off(start)];
+    for t in crate::ops_time::transitions(tz) {
+        v.push(t);
+        v.push(off(t));
     }
     v
 }
 
 /// Zones of the bundled database whose short (city) name is unambiguous: no other zone id with the
-/// same short name has a different offset function over 1980-2060 (sampled every 6 hours).
+/// same short name has a different offset function over 1980-2060 (offset changes located to the second by bisection over half-day steps).
 pub fn unambiguous_zones() -> Vec<Tz> {
     let mut by_short: BTreeMap<String, Vec<Tz>> = BTreeMap::new();
     for tz in TZ_VARIANTS.iter() {
